@@ -101,6 +101,8 @@ def fresh_seq(shape, name):
 
 
 def elem_eq(a, b):
+    if (isinstance(a, VUnk) and a.tag == "empty") or (isinstance(b, VUnk) and b.tag == "empty"):
+        return z3.BoolVal(True)        # element of the empty sequence: the index range is empty
     if isinstance(a, VSeq) or isinstance(b, VSeq):
         return seq_eq(a, b)
     return ops.eq_term(a, b)
